@@ -30,3 +30,59 @@ package gossip
 //@   loop 1 modifies ack.Nodes
 //@   loop 1 invariant forall k node.Key :: __in(ack.Nodes, k) == (SyncSendsNode(true, sync.Digests[k].Heartbeat, __in(snap.Nodes, k), snap.Nodes[k].Heartbeat) && __in(sync.Digests, k) || (__seen(k) && !__in(sync.Digests, k)))
 //@   loop 1 invariant forall k node.Key :: __in(ack.Nodes, k) ==> ack.Nodes[k] == snap.Nodes[k]
+
+//@ # ack (at the initiator): merge what the peer sent, answer with my pre-merge record for
+//@ # every digest the peer asked for where I am ahead of the heartbeat it reported
+//@ spec func AckSends(asked bool, reported version.Heartbeat, hasMine bool, mine version.Heartbeat) bool = asked && hasMine && mine.OlderThan(reported)
+
+//@ func (g *Gossip) ack(ctx context.Context, ack Message) (ack2 Message)
+//@   requires wfDigests(ack.Digests) && store.SpecWFGroup(ack.Nodes) && store.SpecWFGroup(store.SpecIState[g.Store].Nodes)
+//@   # the peer's records are merged into the store (always, whatever the digests are)
+//@   ensures  forall k node.Key :: __in(store.SpecIState[g.Store].Nodes, k) == (old(__in(store.SpecIState[g.Store].Nodes, k)) || __in(ack.Nodes, k))
+//@   ensures  forall k node.Key :: __in(ack.Nodes, k) && (!old(__in(store.SpecIState[g.Store].Nodes, k)) || ack.Nodes[k].Heartbeat.OlderThan(old(store.SpecIState[g.Store].Nodes[k]).Heartbeat)) ==> store.SpecIState[g.Store].Nodes[k] == ack.Nodes[k]
+//@   ensures  forall k node.Key :: old(__in(store.SpecIState[g.Store].Nodes, k)) && !(__in(ack.Nodes, k) && ack.Nodes[k].Heartbeat.OlderThan(old(store.SpecIState[g.Store].Nodes[k]).Heartbeat)) ==> store.SpecIState[g.Store].Nodes[k] == old(store.SpecIState[g.Store].Nodes[k])
+//@   # the reply carries the pre-merge records
+//@   ensures  ack2.Nodes != nil && store.SpecWFGroup(ack2.Nodes)
+//@   ensures  forall k node.Key :: __in(ack2.Nodes, k) == AckSends(__in(ack.Digests, k), ack.Digests[k].Heartbeat, old(__in(store.SpecIState[g.Store].Nodes, k)), old(store.SpecIState[g.Store].Nodes[k]).Heartbeat)
+//@   ensures  forall k node.Key :: __in(ack2.Nodes, k) ==> ack2.Nodes[k] == old(store.SpecIState[g.Store].Nodes[k])
+//@   modifies store.SpecIState
+//@   loop 0 modifies ack2.Nodes
+//@   loop 0 invariant forall k node.Key :: __in(ack2.Nodes, k) == (__seen(k) && AckSends(true, ack.Digests[k].Heartbeat, __in(snap.Nodes, k), snap.Nodes[k].Heartbeat))
+//@   loop 0 invariant forall k node.Key :: __in(ack2.Nodes, k) ==> ack2.Nodes[k] == snap.Nodes[k]
+
+//@ func (g *Gossip) ack2(ctx context.Context, ack2 Message)
+//@   requires store.SpecWFGroup(ack2.Nodes)
+//@   ensures  forall k node.Key :: __in(store.SpecIState[g.Store].Nodes, k) == (old(__in(store.SpecIState[g.Store].Nodes, k)) || __in(ack2.Nodes, k))
+//@   ensures  forall k node.Key :: __in(ack2.Nodes, k) && (!old(__in(store.SpecIState[g.Store].Nodes, k)) || ack2.Nodes[k].Heartbeat.OlderThan(old(store.SpecIState[g.Store].Nodes[k]).Heartbeat)) ==> store.SpecIState[g.Store].Nodes[k] == ack2.Nodes[k]
+//@   ensures  forall k node.Key :: old(__in(store.SpecIState[g.Store].Nodes, k)) && !(__in(ack2.Nodes, k) && ack2.Nodes[k].Heartbeat.OlderThan(old(store.SpecIState[g.Store].Nodes[k]).Heartbeat)) ==> store.SpecIState[g.Store].Nodes[k] == old(store.SpecIState[g.Store].Nodes[k])
+//@   modifies store.SpecIState
+
+//@ # ---- one complete exchange, member by member. A (initiator) has record a iff hasA, B (peer)
+//@ # has b iff hasB; the functions below are exactly the postconditions of sync/ack/ack2 above.
+//@ spec func zeroHB() version.Heartbeat = version.Heartbeat{}
+//@ spec func digHB(hasB bool, b version.Heartbeat) version.Heartbeat = __ite(hasB, b, zeroHB())
+//@ spec func aHasAfter(hasA bool, a version.Heartbeat, hasB bool, b version.Heartbeat) bool = hasA || SyncSendsNode(hasA, a, hasB, b)
+//@ spec func aAfter(hasA bool, a version.Heartbeat, hasB bool, b version.Heartbeat) version.Heartbeat =
+//@   __ite(SyncSendsNode(hasA, a, hasB, b) && (!hasA || b.OlderThan(a)), b, a)
+//@ spec func ack2Sends(hasA bool, a version.Heartbeat, hasB bool, b version.Heartbeat) bool =
+//@   AckSends(SyncAsks(hasA, a, hasB, b), digHB(hasB, b), hasA, a)
+//@ spec func bHasAfter(hasA bool, a version.Heartbeat, hasB bool, b version.Heartbeat) bool = hasB || ack2Sends(hasA, a, hasB, b)
+//@ spec func bAfter(hasA bool, a version.Heartbeat, hasB bool, b version.Heartbeat) version.Heartbeat =
+//@   __ite(ack2Sends(hasA, a, hasB, b) && (!hasB || a.OlderThan(b)), a, b)
+
+//@ # Exchange lemma: after sync/ack/ack2 both sides hold, for every member, the record that
+//@ # is ahead (so views only move forward and agree) - except a member the peer has never heard
+//@ # of whose record at the initiator still carries the zero heartbeat: ack compares against the
+//@ # zero heartbeat of the peer's empty slot and does not send it.
+//@ lemma exchangeConverges(hasA bool, a version.Heartbeat, hasB bool, b version.Heartbeat)
+//@   requires hasA || hasB
+//@   requires !(hasA && !hasB && a == zeroHB())
+//@   ensures  aHasAfter(hasA, a, hasB, b) && bHasAfter(hasA, a, hasB, b)
+//@   ensures  aAfter(hasA, a, hasB, b) == bAfter(hasA, a, hasB, b)
+//@   ensures  hasA && hasB ==> aAfter(hasA, a, hasB, b) == version.MaxHB(a, b)
+//@   ensures  hasA && !hasB ==> aAfter(hasA, a, hasB, b) == a
+//@   ensures  !hasA && hasB ==> aAfter(hasA, a, hasB, b) == b
+//@ # never regresses, for every input including the excepted one
+//@ lemma exchangeMonotone(hasA bool, a version.Heartbeat, hasB bool, b version.Heartbeat)
+//@   ensures  hasA ==> aHasAfter(hasA, a, hasB, b) && !a.OlderThan(aAfter(hasA, a, hasB, b))
+//@   ensures  hasB ==> bHasAfter(hasA, a, hasB, b) && !b.OlderThan(bAfter(hasA, a, hasB, b))
